@@ -37,6 +37,7 @@ struct Inode {
 	std::string data;
 	long mtime = 0;
 	bool ro = false, dir = false;
+	std::string link;	// symbolic link: every call but lstat follows it
 };
 
 struct SPipe {
@@ -143,6 +144,7 @@ struct Kernel {
 	void type(const std::string &bytes) { for (unsigned char ch : bytes) tty_in.push_back(ch); }
 	void ext_write(const std::string &path, const std::string &data, long mtime_delta);
 	void ext_remove(const std::string &path);
+	std::string real(const std::string &path) const;	// follows symbolic links (at most 8)
 	void resize(int r, int c);
 	void deliver(int sig);
 	void advance(long long ns) { clock_ns += ns; }
